@@ -85,6 +85,10 @@ type generator struct {
 	// that refines a reference to itself (`Node: {children: [...Node & {leaf: bool}]}`)
 	// can be unfolded for ever.
 	depth int
+
+	// where each object was declared from: two definitions nested in different
+	// structs can have the same label (`#A: {#Cfg: …}`, `#B: {#Cfg: …}`)
+	declaredFrom map[string]string
 }
 
 // maxNestingDepth is far beyond what hand-written schemas reach.
@@ -97,9 +101,10 @@ func GenerateAST(val cue.Value, c Config) (*ast.Schema, error) {
 			Libraries:     c.Libraries,
 			SchemaPackage: c.Package,
 		}),
-		rootVal:    val,
-		rootPath:   val.Path(),
-		namingFunc: c.NameFunc,
+		rootVal:      val,
+		rootPath:     val.Path(),
+		namingFunc:   c.NameFunc,
+		declaredFrom: make(map[string]string),
 	}
 
 	if g.namingFunc == nil {
@@ -198,9 +203,19 @@ func (g *generator) walkCueSchema(v cue.Value) error {
 }
 
 func (g *generator) declareObject(name string, v cue.Value) error {
+	declaredFrom := v.Path().String()
+
+	// objects are named after their label: the same name given to another definition
+	// can not be told from the first one
+	if previous := g.declaredFrom[name]; previous != "" && declaredFrom != "" && previous != declaredFrom {
+		return errorWithCueRef(v, "'%s' names two different definitions: %s and %s", name, previous, declaredFrom)
+	}
+
 	if g.schema.Objects.Has(name) {
 		return nil
 	}
+
+	g.declaredFrom[name] = declaredFrom
 
 	objectDef := ast.Object{
 		Name:     name,
